@@ -42,8 +42,10 @@ pub fn dispatch(id: &str) -> Option<fn(&mut Session) -> Meta> {
     "C18" => explorer::c18,
     "C19" => content::c19,
     "C20" => builder::c20,
+    "C21" => wallet::c21,
     "C22" => wallet::c22,
     "C23" => wallet::c23,
+    "C24" => wallet::c24,
     "C25" => runestone::c25,
     "C26" => pure_ordinals::c26,
     "C27" => envelope::c27,
